@@ -774,7 +774,9 @@ def run_check(prop, obs, tier, seed, level_text="", assumptions=(), outside=(),
         "violations": len(violations),
     }
     os.makedirs(os.path.join(VERIF, "evidence"), exist_ok=True)
-    with open(os.path.join(VERIF, "evidence", prop + ".json"), "w") as f:
+    # partial (--only) debugging runs never overwrite the evidence of a full run
+    evname = prop + ".json" if not only else prop + ".partial.json"
+    with open(os.path.join(VERIF, "evidence", evname), "w") as f:
         json.dump(ev, f, indent=1, sort_keys=True)
     for r in known_hits:
         log("KNOWN-FINDING: property=%s %s (%s)" % (prop, r.known.get("what", ""), r.ob.name))
